@@ -155,6 +155,9 @@ def main():
         t = line.split()
         if not t:
             continue
+        if t[0] == "cd":   # relative-prefix cases: the paths of the following jobs are relative to this directory
+            os.chdir(t[1])
+            continue
         if t[0] in ("wplp", "lp"):
             placement_job(t, out)
             continue
